@@ -692,9 +692,12 @@ def positions_between(body, frm, to):
     return fwd & back
 
 
-def block_conditions(body, bb, res=None):
+def block_conditions(body, bb, res=None, through_joins=False, _depth=0):
     """Conditions that hold whenever `bb` executes, from its controlling edges:
-    ('variant', scrutinee_expr, name) / ('bool', cond_expr, truth) / ('int', expr, value)."""
+    ('variant', scrutinee_expr, name) / ('bool', cond_expr, truth) / ('int', expr, value).
+    through_joins: a test of the variant of a local that is assigned enum constructors in several places (the verdict of an inlined
+    helper, `let r = if .. { None } else { Some(..) }; match r ..`) also establishes what every assignment of that variant was
+    controlled by: those conditions (common to all such assignments) are added."""
     res = res or Resolver(body)
     out = []
     for S, label in controlling_edges(body, bb):
@@ -702,6 +705,27 @@ def block_conditions(body, bb, res=None):
         if t.get('variants'):
             v = variant_of_edge(body, S, label)
             out.append(('variant', res.place(t['discr_of']), v, S))
+            pl = t['discr_of']
+            if through_joins and _depth < 2 and not pl['p'] and pl['l'] > body.arg_count and v is not None:
+                l = pl['l']
+                hops = 0
+                # through a moved temporary
+                while len(body.defs.get(l, [])) == 1 and body.defs[l][0][2] == 'assign' and 'use' in body.defs[l][0][3]['rv'] and hops < 4:
+                    nx = op_place(body.defs[l][0][3]['rv']['use'])
+                    if nx is None or nx['p']:
+                        break
+                    l = nx['l']
+                    hops += 1
+                ds = body.defs.get(l, [])
+                if len(ds) >= 2 and all(d[2] == 'assign' and isinstance(d[3]['rv'].get('aggregate'), dict) and d[3]['rv']['aggregate'].get('variant') for d in ds):
+                    same = [d for d in ds if d[3]['rv']['aggregate']['variant'] == v]
+                    if same:
+                        common = None
+                        for d in same:
+                            cs = {(k_, e_, v_): S_ for k_, e_, v_, S_ in block_conditions(body, d[0], res, True, _depth + 1)}
+                            common = cs if common is None else {k: common[k] for k in common if k in cs}
+                        for (k_, e_, v_), S_ in (common or {}).items():
+                            out.append((k_, e_, v_, S_))
         elif t.get('sty') == 'bool':
             out.append(('bool', res.operand(t['switch']), bool_truth(body, S, label), S))
         else:
